@@ -1094,6 +1094,60 @@ func main() {
 	}
 	fmt.Fprintf(&lzb, "def lazyFieldWrites : List (String × String) := [%s]\n", strings.Join(pairs, ", "))
 	fmt.Printf("fact F15 %d field writes in lazyproto\n", len(wrows))
+	// F15b: the top-level statements of (*DecodeResult).close, in order. "reset-data" = a loop over r.flatData whose
+	// only effect is `<element>.data = <element>.data[:0]` (a nil-element guard may precede it); an `if` is listed with
+	// its condition. The model of the capacity options (Props/C14Opts: closeFds) empties the recorded data FIRST and
+	// unconditionally, before anything that depends on the pool, the max buffer size or the filter function is looked at.
+	var closeSteps []string
+	for _, f := range lz.files {
+		for _, dcl := range f.Decls {
+			fd, ok := dcl.(*ast.FuncDecl)
+			if !ok || fd.Body == nil || fd.Name.Name != "close" || fd.Recv == nil || len(fd.Recv.List) != 1 || namedOf(fd.Recv.List[0].Type) != "DecodeResult" {
+				continue
+			}
+			for _, st := range fd.Body.List {
+				switch st := st.(type) {
+				case *ast.RangeStmt:
+					step := "range " + types.ExprString(st.X)
+					if lhsField(st.X) == "DecodeResult.flatData" {
+						resets, other := 0, 0
+						for _, b := range st.Body.List {
+							switch b := b.(type) {
+							case *ast.IfStmt: // `if r.flatData[i] == nil { continue }`
+								if len(b.Body.List) == 1 && b.Else == nil && b.Init == nil {
+									if br, ok := b.Body.List[0].(*ast.BranchStmt); ok && br.Tok == token.CONTINUE {
+										continue
+									}
+								}
+								other++
+							case *ast.AssignStmt:
+								if len(b.Lhs) == 1 && len(b.Rhs) == 1 && b.Tok == token.ASSIGN && lhsField(b.Lhs[0]) == "FieldData.data" {
+									if sl, ok := b.Rhs[0].(*ast.SliceExpr); ok && sl.Low == nil && sl.High != nil && sl.Max == nil &&
+										types.ExprString(sl.High) == "0" && types.ExprString(sl.X) == types.ExprString(b.Lhs[0]) {
+										resets++
+										continue
+									}
+								}
+								other++
+							default:
+								other++
+							}
+						}
+						if resets == 1 && other == 0 {
+							step = "reset-data"
+						}
+					}
+					closeSteps = append(closeSteps, step)
+				case *ast.IfStmt:
+					closeSteps = append(closeSteps, "if "+types.ExprString(st.Cond))
+				default:
+					closeSteps = append(closeSteps, fmt.Sprintf("%T", st))
+				}
+			}
+		}
+	}
+	fmt.Fprintf(&lzb, "/-- top-level statements of `(*DecodeResult).close`, in order -/\ndef lazyCloseSteps : List String := %s\n", leanStrList(closeSteps))
+	fmt.Printf("fact F15b close steps %v\n", closeSteps)
 	// F17: package-level variables that code of lazyproto MUTATES at run time (anything but the variable's own
 	// initialiser): assignments to the variable / an element / a field / through it, ++/--, delete, clear, copy into
 	// it, append on it, its address taken, a pointer-receiver method called on it, or — for maps, slices, pointers and
